@@ -5,18 +5,17 @@
 package c16
 
 import (
-	"encoding/base64"
 	"errors"
 	"fmt"
 	"os"
 	"strconv"
 	"strings"
 	"testing"
-	"unicode/utf16"
 	"unicode/utf8"
 
 	"github.com/emersion/go-imap/v2/internal/utf7"
 	"github.com/emersion/go-imap/v2/verifh/kit/ev"
+	"github.com/emersion/go-imap/v2/verifh/kit/refutf7"
 	"golang.org/x/text/transform"
 	"pgregory.net/rapid"
 )
@@ -24,123 +23,6 @@ import (
 func TestMain(m *testing.M) { ev.Main(m) }
 
 // ---------------------------------------------------------------- reference codec
-
-var refB64 = base64.NewEncoding("ABCDEFGHIJKLMNOPQRSTUVWXYZabcdefghijklmnopqrstuvwxyz0123456789+,").WithPadding(base64.NoPadding)
-
-func printable(r rune) bool { return r >= 0x20 && r <= 0x7e }
-
-// refEncode encodes valid UTF-8 per RFC 3501 5.1.3.
-func refEncode(s string) string {
-	var out strings.Builder
-	var pend []uint16
-	flush := func() {
-		if len(pend) == 0 {
-			return
-		}
-		b := make([]byte, 0, 2*len(pend))
-		for _, u := range pend {
-			b = append(b, byte(u>>8), byte(u))
-		}
-		out.WriteByte('&')
-		out.WriteString(refB64.EncodeToString(b))
-		out.WriteByte('-')
-		pend = pend[:0]
-	}
-	for _, r := range s {
-		if printable(r) {
-			flush()
-			if r == '&' {
-				out.WriteString("&-")
-			} else {
-				out.WriteRune(r)
-			}
-			continue
-		}
-		if r >= 0x10000 {
-			r1, r2 := utf16.EncodeRune(r)
-			pend = append(pend, uint16(r1), uint16(r2))
-		} else {
-			pend = append(pend, uint16(r))
-		}
-	}
-	flush()
-	return out.String()
-}
-
-// refDecode decodes modified UTF-7, rejecting exactly the malformed forms the
-// property lists: bytes outside printable ASCII, unterminated shift, invalid
-// base64 (incl. '=' padding, impossible length), odd UTF-16 byte count, lone or
-// reversed surrogates, printable ASCII hidden in base64, back-to-back shifts.
-func refDecode(s string) (string, string) {
-	var out strings.Builder
-	afterShift := false
-	for i := 0; i < len(s); {
-		c := s[i]
-		if c < 0x20 || c > 0x7e {
-			return "", "byte outside printable ASCII"
-		}
-		if c != '&' {
-			out.WriteByte(c)
-			afterShift = false
-			i++
-			continue
-		}
-		j := strings.IndexByte(s[i+1:], '-')
-		if j < 0 {
-			return "", "unterminated shift"
-		}
-		chunk := s[i+1 : i+1+j]
-		i = i + 1 + j + 1
-		if chunk == "" {
-			out.WriteByte('&')
-			afterShift = false
-			continue
-		}
-		if afterShift {
-			return "", "back-to-back shifts"
-		}
-		for k := 0; k < len(chunk); k++ {
-			ch := chunk[k]
-			ok := ch >= 'A' && ch <= 'Z' || ch >= 'a' && ch <= 'z' || ch >= '0' && ch <= '9' || ch == '+' || ch == ','
-			if !ok {
-				return "", "invalid base64 character"
-			}
-		}
-		if len(chunk)%4 == 1 {
-			return "", "impossible base64 length"
-		}
-		raw, err := refB64.DecodeString(chunk)
-		if err != nil {
-			return "", "invalid base64"
-		}
-		if len(raw)%2 == 1 || len(raw) == 0 {
-			return "", "odd number of UTF-16 bytes"
-		}
-		for k := 0; k < len(raw); k += 2 {
-			u := rune(raw[k])<<8 | rune(raw[k+1])
-			switch {
-			case u >= 0xD800 && u <= 0xDBFF:
-				if k+3 >= len(raw) {
-					return "", "lone high surrogate"
-				}
-				u2 := rune(raw[k+2])<<8 | rune(raw[k+3])
-				if u2 < 0xDC00 || u2 > 0xDFFF {
-					return "", "high surrogate not followed by low"
-				}
-				out.WriteRune(0x10000 + (u-0xD800)<<10 + (u2 - 0xDC00))
-				k += 2
-			case u >= 0xDC00 && u <= 0xDFFF:
-				return "", "lone low surrogate"
-			case printable(u):
-				return "", "printable ASCII inside base64"
-			default:
-				out.WriteRune(u)
-			}
-		}
-		afterShift = true
-	}
-	return out.String(), ""
-}
 
 // ---------------------------------------------------------------- conforming streaming driver
 
@@ -205,7 +87,7 @@ var chunkings = [][2]int{{1, 1}, {1, 8}, {2, 3}, {3, 2}, {5, 4}, {7, 1}, {4096, 
 
 // checkEncode: one valid UTF-8 string through encoder and back, one-shot and chunked.
 func checkEncode(t fataler, s string, chunks [][2]int) (shifted bool, splitInside bool) {
-	want := refEncode(s)
+	want := refutf7.Encode(s)
 	got, err := utf7.Encoding.NewEncoder().String(s)
 	if err != nil {
 		t.Fatalf("encode(%+q) error: %v", s, err)
@@ -241,7 +123,7 @@ func checkEncode(t fataler, s string, chunks [][2]int) (shifted bool, splitInsid
 
 // checkDecode: arbitrary bytes through the decoder, one-shot and chunked.
 func checkDecode(t fataler, in string, chunks [][2]int) (accepted bool, reason string) {
-	want, why := refDecode(in)
+	want, why := refutf7.Decode(in)
 	var got string
 	var err error
 	func() {
@@ -355,7 +237,7 @@ func genDecInput(t *rapid.T) string {
 					raw = append(raw, 0x41)
 				}
 				sb.WriteByte('&')
-				sb.WriteString(refB64.EncodeToString(raw))
+				sb.WriteString(refutf7.B64.EncodeToString(raw))
 				if rapid.IntRange(0, 9).Draw(t, "term") != 0 {
 					sb.WriteByte('-')
 				}
@@ -364,7 +246,7 @@ func genDecInput(t *rapid.T) string {
 		return sb.String()
 	default:
 		// mutate a valid encoding
-		s := []byte(refEncode(genUTF8(t)))
+		s := []byte(refutf7.Encode(genUTF8(t)))
 		muts := rapid.IntRange(0, 3).Draw(t, "muts")
 		for m := 0; m < muts; m++ {
 			pos := rapid.IntRange(0, len(s)).Draw(t, "pos")
@@ -417,7 +299,7 @@ func TestPropRoundTrip(t *testing.T) {
 		if len(s) >= 100 {
 			ev.Class("enc:long")
 		}
-		ev.Sample(fmt.Sprintf("%+q -> %q chunks=%v", s, refEncode(s), ch))
+		ev.Sample(fmt.Sprintf("%+q -> %q chunks=%v", s, refutf7.Encode(s), ch))
 	})
 }
 
